@@ -35,7 +35,7 @@ Definition dispatch (f : Z) (x : sx) : sx :=
   | 4 => (* lint skeleton [has_ref; read_ref; parse_ref; read; parse] *)
       A (outcome_code (lint_skeleton (to_bool (nth_sx 0 x)) (to_bool (nth_sx 1 x))
                          (to_bool (nth_sx 2 x)) (to_bool (nth_sx 3 x)) (to_bool (nth_sx 4 x))))
-  | 5 => (* skips.sort for strings.xml [error-level results on shared strings; junk entries] *)
+  | 5 => (* skips.sort for strings.xml [shared strings with an error-level result; junk entries] *)
       of_result (fun _ => L [])
         (sort_skips (android_skip_keys (to_nat (nth_sx 0 x)) (to_nat (nth_sx 1 x))))
   | _ => sx_err
